@@ -932,3 +932,62 @@ def substr_bound_rule(ctx, rid, scope, minimum):
     if n < minimum:
         from facts import AnalysisBroken
         raise AnalysisBroken('%s: only %d substr calls with a constant start found' % (rid, n))
+
+
+def dead_store_rule(ctx, rid, scope, is_source, minimum):
+    """a value that is fetched on purpose (is_source(fn, rhs node): e.g. the element of a defaults map found by key) and assigned to a
+    local is used: on some path from the assignment the local is read before it is overwritten.  A store nobody reads means the
+    value was put into the wrong variable."""
+    fb = ctx.fb
+    seen = set()
+    n = 0
+    for fn in fb.functions:
+        if not scope(fn) or not fn.blocks or (fn.name, fn.sig) in seen:
+            continue
+        seen.add((fn.name, fn.sig))
+        decls = set()
+        for x, v in fn.nodes.items():
+            if v['k'] == 'DeclStmt':
+                for d in v.get('decls', []):
+                    if not (d.get('t') or '').rstrip().endswith(('&', '*')) and not d.get('static'):
+                        decls.add(d['decl'])
+        if not decls:
+            continue
+        reads = {}
+        addr = set()
+        for x, v in fn.nodes.items():
+            if v['k'] == 'DeclRefExpr' and v.get('decl') in decls:
+                reads.setdefault(v['decl'], []).append(x)
+            if v['k'] == 'UnaryOperator' and v.get('op') == '&':
+                d = fn.ref_decl(v['ch'][0])
+                if d:
+                    addr.add(d)
+        asg = list(fn.assignments())
+        for nid, d, rhs, op, lhs in asg:
+            if d not in decls or op != '=' or d in addr or lhs is None or rhs is None:
+                continue
+            if fn.nodes[fn.strip(lhs)].get('k') != 'DeclRefExpr' or not is_source(fn, rhs):
+                continue
+            p = fn.pos(nid)
+            if p is None:
+                continue
+            n += 1
+            ctx.touch(fn)
+            kills = {}
+            for n2, d2, r2, o2, l2 in asg:
+                if d2 == d and o2 == '=' and n2 != nid and l2 is not None and fn.nodes[fn.strip(l2)].get('k') == 'DeclRefExpr':
+                    kills[n2] = set(fn.walk(l2))
+            own = set(fn.walk(lhs))
+            used = False
+            for r in reads.get(d, []):
+                if r in own or any(r in t for t in kills.values()):
+                    continue
+                pr = fn.pos(r)
+                if pr is None or fn.reaches_point(p[0], pr, set(kills), start_idx=p[1] + 1):
+                    used = True
+                    break
+            ctx.ob(rid, fn, nid, used, 'fetched value stored in %s (%s)' % (d.split(':')[-1], fn.name.split('::')[-1]),
+                   'read afterwards: %s' % used)
+    if n < minimum:
+        from facts import AnalysisBroken
+        raise AnalysisBroken('%s: only %d stores of fetched values found' % (rid, n))
